@@ -39,6 +39,7 @@ type NodeOpts struct {
 	RcvBuf     int    // default receive buffer (0 = stack default)
 	Resolution bool   // link requires address resolution (Ethernet-like)
 	MAC        tcpip.LinkAddress
+	Fd         bool // the NIC is the repository's fd-based Ethernet endpoint over a simulated descriptor
 }
 
 var (
@@ -61,7 +62,16 @@ func (w *World) NewNode(name string, mtu uint32, a4, a6 tcpip.Address, peer int,
 	if o.Resolution {
 		caps |= stack.CapabilityResolutionRequired
 	}
-	l := w.AddLink(name, mtu, caps, o.MAC, peer)
+	var l *Link
+	if o.Fd {
+		mac := o.MAC
+		if mac == "" {
+			mac = tcpip.LinkAddress("\x02\xaa\x00\x00\x00\x01")
+		}
+		l = w.AddFdLink(name, mtu, mac, o.Resolution, peer)
+	} else {
+		l = w.AddLink(name, mtu, caps, o.MAC, peer)
+	}
 	must(s.CreateNIC(1, l.id), "CreateNIC")
 	must(s.AddAddress(1, ipv4.ProtocolNumber, a4), "AddAddress v4")
 	must(s.AddAddress(1, ipv6.ProtocolNumber, a6), "AddAddress v6")
